@@ -1,0 +1,190 @@
+//go:build verif
+
+package dict
+
+// Verification hook: with the build tag "verif" the enumeration order of
+// KVs/Keys/Values is decided by an external schedule instead of Go's map
+// iteration order.  Entries are first put in a canonical order (sorted by the
+// %#v text of the key); if there are at least two, the next answer of the
+// schedule selects a permutation from a fixed menu:
+//
+//	n <= 4: all n! permutations (0 = canonical order)
+//	n >  4: canonical, reversed, each element moved to the front, each element moved to the back
+//
+// VERIF_DICT_SCHED names a file with the forced answers (blank separated
+// integers; missing answers are 0); VERIF_DICT_TRACE names a file to which one
+// line "op n menu chosen caller" is appended per decision.
+
+import (
+	"fmt"
+	"os"
+	"runtime"
+	"sort"
+	"strconv"
+	"strings"
+
+	"github.com/karino2/folang/pkg/frt"
+)
+
+var (
+	verifLoaded bool
+	verifSched  []int
+	verifPos    int
+	verifTrace  *os.File
+)
+
+func verifLoad() {
+	if verifLoaded {
+		return
+	}
+	verifLoaded = true
+	if p := os.Getenv("VERIF_DICT_SCHED"); p != "" {
+		if b, err := os.ReadFile(p); err == nil {
+			for _, f := range strings.Fields(string(b)) {
+				v, err := strconv.Atoi(f)
+				if err != nil {
+					fmt.Fprintf(os.Stderr, "verif: bad schedule entry %q\n", f)
+					os.Exit(97)
+				}
+				verifSched = append(verifSched, v)
+			}
+		}
+	}
+	if p := os.Getenv("VERIF_DICT_TRACE"); p != "" {
+		verifTrace, _ = os.OpenFile(p, os.O_APPEND|os.O_CREATE|os.O_WRONLY, 0644)
+	}
+}
+
+func verifFact(n int) int {
+	r := 1
+	for i := 2; i <= n; i++ {
+		r *= i
+	}
+	return r
+}
+
+func verifMenuSize(n int) int {
+	if n < 2 {
+		return 1
+	}
+	if n <= 4 {
+		return verifFact(n)
+	}
+	return 2*n + 2
+}
+
+// verifPerm returns the k-th permutation of 0..n-1 of the menu.
+func verifPerm(n, k int) []int {
+	id := make([]int, n)
+	for i := range id {
+		id[i] = i
+	}
+	if k == 0 {
+		return id
+	}
+	if n <= 4 {
+		// k-th permutation in lexicographic order (factorial number system)
+		avail := append([]int{}, id...)
+		res := make([]int, 0, n)
+		for i := n; i >= 1; i-- {
+			f := verifFact(i - 1)
+			j := k / f
+			k = k % f
+			res = append(res, avail[j])
+			avail = append(avail[:j], avail[j+1:]...)
+		}
+		return res
+	}
+	if k == 1 {
+		for i := range id {
+			id[i] = n - 1 - i
+		}
+		return id
+	}
+	k -= 2
+	res := make([]int, 0, n)
+	if k < n { // element k moved to the front
+		res = append(res, k)
+		for i := 0; i < n; i++ {
+			if i != k {
+				res = append(res, i)
+			}
+		}
+		return res
+	}
+	k -= n // element k moved to the back
+	for i := 0; i < n; i++ {
+		if i != k {
+			res = append(res, i)
+		}
+	}
+	return append(res, k)
+}
+
+func verifChoose(op string, n int) []int {
+	verifLoad()
+	menu := verifMenuSize(n)
+	chosen := 0
+	if menu > 1 {
+		if verifPos < len(verifSched) {
+			chosen = verifSched[verifPos]
+			if chosen < 0 || chosen >= menu {
+				fmt.Fprintf(os.Stderr, "verif: schedule answer %d at decision %d out of range (menu %d)\n", chosen, verifPos, menu)
+				os.Exit(97)
+			}
+		}
+		verifPos++
+		if verifTrace != nil {
+			caller := "?"
+			for skip := 3; skip < 9; skip++ {
+				pc, _, _, ok := runtime.Caller(skip)
+				if !ok {
+					break
+				}
+				name := runtime.FuncForPC(pc).Name()
+				if !strings.Contains(name, "/pkg/") {
+					caller = name
+					break
+				}
+			}
+			fmt.Fprintf(verifTrace, "%s %d %d %d %s\n", op, n, menu, chosen, caller)
+		}
+	}
+	return verifPerm(n, chosen)
+}
+
+func verifSortedKeys[K comparable, V any](d Dict[K, V]) []K {
+	keys := make([]K, 0, len(d.Fdict))
+	for k := range d.Fdict {
+		keys = append(keys, k)
+	}
+	sort.Slice(keys, func(i, j int) bool { return fmt.Sprintf("%#v", keys[i]) < fmt.Sprintf("%#v", keys[j]) })
+	return keys
+}
+
+func verifKVs[K comparable, V any](d Dict[K, V]) ([]frt.Tuple2[K, V], bool) {
+	keys := verifSortedKeys(d)
+	var res []frt.Tuple2[K, V]
+	for _, i := range verifChoose("KVs", len(keys)) {
+		res = append(res, frt.NewTuple2(keys[i], d.Fdict[keys[i]]))
+	}
+	return res, true
+}
+
+func verifKeys[K comparable, V any](d Dict[K, V]) ([]K, bool) {
+	keys := verifSortedKeys(d)
+	var res []K
+	for _, i := range verifChoose("Keys", len(keys)) {
+		res = append(res, keys[i])
+	}
+	return res, true
+}
+
+func verifValues[K comparable, V any](d Dict[K, V]) ([]V, bool) {
+	keys := verifSortedKeys(d)
+	var res []V
+	for _, i := range verifChoose("Values", len(keys)) {
+		res = append(res, d.Fdict[keys[i]])
+	}
+	return res, true
+}
